@@ -30,7 +30,7 @@ VARIABLES l, ghost
 mvars == <<l, ghost>>
 
 StepAt(k) == [pre |-> Tr[k - 1].st, act |-> Tr[k].act, res |-> Tr[k].res, post |-> Tr[k].st,
-              xfers |-> Tr[k].xfers, hooks |-> Tr[k].hooks, extra |-> Tr[k].extra]
+              xfers |-> Tr[k].xfers, hooks |-> Tr[k].hooks, extra |-> Tr[k].extra, evm |-> Tr[k].evm]
 
 StateFields == {"now", "params", "aseq", "auctions", "allowed", "bids", "bseq", "vqs", "lastMatched",
                 "bal", "fp", "supply", "switchOn", "nl"}
@@ -40,6 +40,7 @@ DriftOf(exp, step) ==
   \cup (IF exp.ok # step.res.ok THEN {"res.ok"} ELSE {})
   \cup (IF exp.ok /\ step.res.ok /\ exp.xfers # step.xfers THEN {"xfers"} ELSE {})
   \cup (IF ((exp.ok /\ step.res.ok) \/ exp.err = "hook") /\ exp.hooks # step.hooks THEN {"hooks"} ELSE {})
+  \cup (IF exp.ok /\ step.res.ok /\ EventsOf(step.pre, step.act, exp) # step.evm THEN {"events"} ELSE {})
 
 InitDrift(rec) ==
   LET s0 == [InitState(rec.act.bal0, rec.act.params, FALSE) EXCEPT !.nl = IF "listeners" \in DOMAIN rec.act THEN rec.act.listeners ELSE 0] IN
